@@ -62,10 +62,13 @@ def attr_writers(repo, attr):
     return out
 
 
-def root_callers(repo, f, _seen=None):
+def root_callers(repo, f, _seen=None, stop=()):
     """a private helper (``_name``, not overriding anything) acts on behalf of the methods that call it through
-    ``self._name(...)``: return the qualnames of those root callers (the function itself when it is not a helper)"""
+    ``self._name(...)``: return the qualnames of those root callers (the function itself when it is not a helper,
+    or when it is one of the `stop` methods)"""
     _seen = _seen or set()
+    if f.qualname in stop:
+        return {f.qualname}
     if f.cls is None or not f.name.startswith('_') or f.name.startswith('__') or f.node in _seen:
         return {f.qualname}
     _seen.add(f.node)
@@ -81,7 +84,7 @@ def root_callers(repo, f, _seen=None):
             for n in walk_local(g.node):
                 if isinstance(n, ast.Call) and isinstance(n.func, ast.Attribute) and n.func.attr == f.name \
                         and isinstance(n.func.value, ast.Name) and n.func.value.id == 'self':
-                    callers |= root_callers(repo, g, _seen)
+                    callers |= root_callers(repo, g, _seen, stop)
     return callers or {f.qualname}
 
 
@@ -89,7 +92,7 @@ def acting_as(repo, f, allowed) -> bool:
     """is f one of the allowed methods, or a private helper used only by allowed methods?"""
     if f.qualname in allowed:
         return True
-    roots = root_callers(repo, f)
+    roots = root_callers(repo, f, stop=tuple(allowed))
     return bool(roots) and roots != {f.qualname} and all(r in allowed for r in roots)
 
 
@@ -128,7 +131,7 @@ def kernel_state_writers(ctx, prop):
         for node in walk_local(f.node):
             if isinstance(node, ast.Attribute) and node.attr == '_eid' and isinstance(node.ctx, ast.Load):
                 n += 1
-                ok = root_callers(ctx.repo, f) == {'Environment.schedule'}
+                ok = root_callers(ctx.repo, f, stop=('Environment.schedule',)) == {'Environment.schedule'}
                 ctx.ob(rule, ok)
                 if not ok:
                     ctx.violation(rule, '%s::%s' % (f.module.relpath, f.qualname), 'read of ._eid',
@@ -167,7 +170,7 @@ def schedule_sites(ctx, prop):
                 got = 'NORMAL' if pr is None else (pr.id if isinstance(pr, ast.Name) else ast.unparse(pr))
                 q = f.qualname
                 if q not in PRIORITY_TABLE:
-                    roots = root_callers(ctx.repo, f)
+                    roots = root_callers(ctx.repo, f, stop=tuple(PRIORITY_TABLE))
                     if len(roots) == 1 and next(iter(roots)) in PRIORITY_TABLE:
                         q = next(iter(roots))
                 construct = '%s::%s' % (f.module.relpath, f.qualname)
@@ -243,7 +246,7 @@ def outcome_writers(ctx, prop):
             n += 1
             ctx.touch(f)
             q = f.qualname
-            roots = root_callers(ctx.repo, f)
+            roots = root_callers(ctx.repo, f, stop=tuple(table))
             def _okq(qn):
                 if qn in table:
                     return True
@@ -338,7 +341,7 @@ def interruption_sites(ctx, prop):
         for node in walk_local(f.node):
             if isinstance(node, ast.Call) and isinstance(node.func, ast.Name) and node.func.id == 'Interruption':
                 n += 1
-                ok = root_callers(ctx.repo, f) == {'Process.interrupt'}
+                ok = root_callers(ctx.repo, f, stop=('Process.interrupt',)) == {'Process.interrupt'}
                 ctx.ob(rule, ok)
                 if not ok:
                     ctx.violation(rule, '%s::%s' % (f.module.relpath, f.qualname), 'Interruption(...) constructed',
@@ -420,7 +423,7 @@ def active_process_discipline(ctx, prop):
     f = c.methods.get('_resume')
     if f is None:
         raise AnalysisError('anchor vanished: Process._resume')
-    paths = ctx.paths(c, f, Options())
+    paths = ctx.paths(c, f, Options(), primary=False)    # a slice of _resume: not a target of the self-validation
     n = 0
     construct = '%s::Process._resume' % f.module.relpath
     for p in paths:
